@@ -10,7 +10,8 @@ import json, os, subprocess, sys, tempfile
 
 FIXES = [  # (commit, property, also-reverse-first)
     ("b0f06c5", "C11", []), ("acbcc3c", "C04", []), ("b94d375", "C04", []), ("beb697d", "C01", []),
-    ("4392ef7", "C12", []), ("842e1af", "C19", []), ("6edd82b", "C01", []), ("80a5b27", "C01", ["6edd82b"]),
+    ("4392ef7", "C12", []), ("842e1af", "C19", []), ("bb88a29", "C01", []), ("6edd82b", "C01", ["bb88a29"]),
+    ("80a5b27", "C01", ["bb88a29", "6edd82b"]),
     ("0ec96d8", "C16", []), ("22eeea8", "C16", []), ("086c0cc", "C05", []), ("3b58009", "C04", []),
 ]
 VERIF = os.path.dirname(os.path.dirname(os.path.abspath(__file__)))
@@ -35,6 +36,8 @@ for commit, pid, first in FIXES:
             rc = int(line.split("rc=")[1])
         if "signature:" in line:
             sigs.append(line.split("signature:")[1].split("|")[0].strip())
+    if os.path.exists(os.path.join(VERIF, "seeded", "fixes.json")) and not out:
+        out = json.load(open(os.path.join(VERIF, "seeded", "fixes.json")))
     out[commit] = {"property": pid, "reversed_with": first, "check_exit": rc, "caught": rc == 1,
                    "signatures": sorted(set(sigs)), "applies": "PATCH DOES NOT APPLY" not in text}
     print(commit, pid, "rc=%s" % rc, sorted(set(sigs))[:4], flush=True)
